@@ -2,7 +2,7 @@
 import json
 import os
 
-from gen.progs import gen_layout_program, gen_program
+from gen.progs import gen_builtin_program, gen_layout_program, gen_program, layout_search_programs
 from gen.rng import Rng
 from lib.e2e import run_pipeline, same_behaviour
 from lib.vlib import Check, check_props, coq_eval, coq_result, vh
@@ -153,11 +153,16 @@ def run(tier, seed, replay=None):
         for i in range(n):
             r = rng.fork()
             opts = {'big': i % 7 == 0, 'nfun': 4 + i % 3, 'depth': 2 + i % 3}
-            progs.append(gen_layout_program(r) if i % 3 == 2 else gen_program(r, opts))
+            progs.append(gen_builtin_program(r) if i % 12 == 4 else gen_layout_program(r) if i % 3 == 2 else gen_program(r, opts))
     ck.rule = ('generated well-typed programs (recursive/generic enums, structs, interfaces with bounded generics, closures, tuples, '
                'nested and or-patterns, tail/non-tail recursion, Str/Vec/Process builtins) with inputs fed through Str.toInt; '
                'distinct = distinct program text; non-trivial = accepted, compiled and compared (run not excluded)')
     layout_correspondence(ck, progs)
+    if ck.corr_fail and not replay:
+        # the model no longer describes what the compiler does: search for a program on which the difference is observable
+        # (every type of the generator's catalogue up to two generic levels, applied to every constructor path)
+        progs = progs + layout_search_programs(2 if tier == 'quick' else 3)
+        ck.notes.append('layout correspondence failed: %d search programs added' % len(layout_search_programs(2 if tier == 'quick' else 3)))
     recs = run_pipeline(progs, 'c01', want_ts=False)
     compared = 0
     for prog, rec in zip(progs, recs):
